@@ -48,6 +48,10 @@ CHECKS = {
   "held on the observed schedules: race-detector-instrumented workers run parallel parses, concurrent reads of one catalog, first-use races in fresh processes, and recorded collection histories checked for linearizability (porcupine) plus quiescent-state checks; interleavings are sampled, the evidence counts overlapping histories",
   "trusts the Go race detector and porcupine v1.3.0; the sequential ordered-map model is 40 lines",
   "runtime monitoring: Go race detector over stress workloads + offline linearizability checking of recorded call/return histories against a sequential model"),
+ "C04": ("exploration",
+  "held on the generated models: the real catalog equals, entry by entry and in source order, the catalog projected from the abstract model by an independent projector, for each model in the canonical and in random renderings; the fragment and its wildcards are listed in the evidence rule",
+  "trusts the model-to-catalog projector (written from the statement and the snapshot format, calibrated on hand-written documents) and the order-preserving JSON decoder",
+  "runtime monitoring: execution vs executable reference model (model-based oracle over the serialised catalog), grammar-based generation"),
 }
 
 def main():
